@@ -657,6 +657,38 @@ func exMustFail(info *exInfo, followSchemas bool) (bool, string) {
 	return false, ""
 }
 
+// exPointerThroughRef: does the pointer of key ("url#/ptr") pass through an object that carries a `$ref`?
+func exPointerThroughRef(s exStore, key string) bool {
+	i := strings.Index(key, "#")
+	if i < 0 {
+		return false
+	}
+	var cur interface{} = s[key[:i]]
+	for _, t := range exPtrTokens(key[i+1:]) {
+		m, ok := cur.(map[string]interface{})
+		if ok {
+			if _, isRef := m["$ref"].(string); isRef {
+				return true
+			}
+			cur, ok = m[t]
+			if !ok {
+				return false
+			}
+			continue
+		}
+		l, ok := cur.([]interface{})
+		if !ok {
+			return false
+		}
+		n, err := strconv.Atoi(t)
+		if err != nil || n < 0 || n >= len(l) {
+			return false
+		}
+		cur = l[n]
+	}
+	return false
+}
+
 func exLibRef(s string) string {
 	r, err := spec.NewRef(s)
 	if err != nil {
@@ -678,7 +710,13 @@ func checkC08(in *exInput) []exFinding {
 			continue
 		}
 		if must && !res.Err {
-			fs = append(fs, exFinding{Shape: exShape("silent-failure", g, false), What: fmt.Sprintf("skip=%v: no error although %s has to be followed and cannot be resolved", skip, witness)})
+			shape := exShape("silent-failure", g, false)
+			if exPointerThroughRef(s, witness) {
+				// the pointer passes THROUGH a `$ref` holder: nothing is there in the document, but ExpandSpec works on the root
+				// in place and may already have replaced that holder by its target when the reference is resolved (finding F24)
+				shape = "silent-failure:pointer-through-ref"
+			}
+			fs = append(fs, exFinding{Shape: shape, What: fmt.Sprintf("skip=%v: no error although %s has to be followed and cannot be resolved", skip, witness)})
 		}
 		if !must && res.Err {
 			fs = append(fs, exFinding{Shape: exShape("spurious-error", g, false), What: fmt.Sprintf("skip=%v: error although every reference that has to be followed is resolvable", skip), Obs: res.ErrText})
@@ -709,6 +747,8 @@ func checkC08(in *exInput) []exFinding {
 				shape := "ref-lost"
 				if _, there := s.lookup(t); there {
 					shape = "ref-lost:ill-typed" // the target exists but is not an object
+				} else if exPointerThroughRef(s, t.String()) {
+					shape = "ref-lost:pointer-through-ref" // resolved in the partially expanded live root (finding F24)
 				}
 				fs = append(fs, exFinding{Shape: shape, What: "unresolvable schema `$ref` at " + h.ptr() + " is not left verbatim by ContinueOnError", Obs: exView(ov), Exp: h.Ref})
 			}
@@ -726,8 +766,18 @@ func checkC08(in *exInput) []exFinding {
 	s0 := g0.store()
 	out0 := exDecode(ref.Out)
 	so, so0 := s.with(g.Root, out), s0.with(g.Root, out0)
+	// the comparison INSIDE an element that depends on a broken reference is made when all faults are dangling or absent
+	// targets of SCHEMA references: those stay in place verbatim (a broken parameter/response/path-item reference is dropped
+	// with its element, an ill-typed target is the known finding F22, a missing document takes all of its elements with it)
+	fine := len(g.Missing) == 0
+	for _, b := range g.Broken {
+		if b.Kind != exSchema || strings.HasPrefix(b.Fault, "ill-typed") {
+			fine = false
+		}
+	}
 	for _, k := range exRootElements(s[g.Root]) {
-		if n := info.Nodes[exTarget{g.Root, exPtr(k.Path)}.String()]; n == nil || n.Broken {
+		n := info.Nodes[exTarget{g.Root, exPtr(k.Path)}.String()]
+		if n == nil {
 			continue
 		}
 		a, oka := exAt(out, k.Path)
@@ -736,13 +786,128 @@ func checkC08(in *exInput) []exFinding {
 			continue
 		}
 		x, y := so.unfold(g.Root, a, k.Kind, exDepth), so0.unfold(g.Root, b, k.Kind, exDepth)
+		if n.Broken {
+			if !fine {
+				continue
+			}
+			// the element depends on a broken reference: everything in it that does not must still be expanded as in the repaired
+			// graph — the two unfoldings agree except below the positions where the faulty one dangles
+			if d := exDiffModDangling(x, y, ""); d != "" {
+				fs = append(fs, exFinding{Shape: exShape("independent-part-differs", g, false, exPtr(k.Path)),
+					What: exPtr(k.Path) + " depends on a broken reference, but a part of it that does not is not expanded as in the repaired graph (first difference at " + d + ")", Obs: exView(a), Exp: exView(b)})
+				break
+			}
+			continue
+		}
 		if exJSON(x) != exJSON(y) || (g0.Acyclic && exJSON(a) != exJSON(b)) {
 			fs = append(fs, exFinding{Shape: exShape("independent-differs", g, false, exPtr(k.Path)),
-				What: exPtr(k.Path) + " does not depend on a broken reference but is not expanded as in the repaired graph", Obs: exView(a), Exp: exView(b)})
+				What: exPtr(k.Path) + " does not depend on a broken reference but is not expanded as in the repaired graph (first difference at " + exFirstDiff(a, b, "") + ")", Obs: exView(a), Exp: exView(b)})
 			break
 		}
 	}
 	return exFirstPerShape(fs)
+}
+
+// exDiffModDangling: first difference between the unfolding x of a faulty graph and the unfolding y of its repair, ignoring
+// what lies at or below a position where x dangles (an unresolvable reference left in place) or was cut.
+func exDiffModDangling(x, y interface{}, at string) string {
+	if xm, ok := x.(map[string]interface{}); ok {
+		if _, d := xm["$dangling"]; d {
+			return ""
+		}
+		ym, ok := y.(map[string]interface{})
+		if !ok {
+			return at + " (kinds differ)"
+		}
+		keys := map[string]bool{}
+		for k := range xm {
+			keys[k] = true
+		}
+		for k := range ym {
+			keys[k] = true
+		}
+		ks := make([]string, 0, len(keys))
+		for k := range keys {
+			ks = append(ks, k)
+		}
+		sort.Strings(ks)
+		for _, k := range ks {
+			xv, okx := xm[k]
+			yv, oky := ym[k]
+			if okx != oky {
+				return at + "/" + k + " (present on one side only)"
+			}
+			if d := exDiffModDangling(xv, yv, at+"/"+k); d != "" {
+				return d
+			}
+		}
+		return ""
+	}
+	if xl, ok := x.([]interface{}); ok {
+		yl, ok := y.([]interface{})
+		if !ok || len(xl) != len(yl) {
+			return at + " (arrays differ in kind or length)"
+		}
+		for i := range xl {
+			if d := exDiffModDangling(xl[i], yl[i], at+"/"+strconv.Itoa(i)); d != "" {
+				return d
+			}
+		}
+		return ""
+	}
+	if exJSON(x) != exJSON(y) {
+		return at
+	}
+	return ""
+}
+
+// exFirstDiff: a pointer to the first position at which two JSON values differ ("" when they are equal).
+func exFirstDiff(a, b interface{}, at string) string {
+	switch x := a.(type) {
+	case map[string]interface{}:
+		y, ok := b.(map[string]interface{})
+		if !ok {
+			return at + " (kinds differ)"
+		}
+		keys := map[string]bool{}
+		for k := range x {
+			keys[k] = true
+		}
+		for k := range y {
+			keys[k] = true
+		}
+		ks := make([]string, 0, len(keys))
+		for k := range keys {
+			ks = append(ks, k)
+		}
+		sort.Strings(ks)
+		for _, k := range ks {
+			xv, okx := x[k]
+			yv, oky := y[k]
+			if okx != oky {
+				return at + "/" + k + " (present on one side only)"
+			}
+			if d := exFirstDiff(xv, yv, at+"/"+k); d != "" {
+				return d
+			}
+		}
+		return ""
+	case []interface{}:
+		y, ok := b.([]interface{})
+		if !ok || len(x) != len(y) {
+			return at + " (arrays differ in kind or length)"
+		}
+		for i := range x {
+			if d := exFirstDiff(x[i], y[i], at+"/"+strconv.Itoa(i)); d != "" {
+				return d
+			}
+		}
+		return ""
+	}
+	if exJSON(a) != exJSON(b) {
+		return at
+	}
+	return ""
 }
 
 // ---------------------------------------------------------------------------------------------
